@@ -174,6 +174,7 @@ class Interp:
             scenario.get('run_seed', 0) & 0xffff, self.trace)
         self.actors = Actors(self.desper, self.cfg, self)
         self.w = self.desper.World()
+        self.w2 = None
         kernel.label(self.w, 'w')
         self.ids = [dec_id(x) for x in self.cfg['ids']]
         # model
@@ -782,6 +783,35 @@ class Interp:
         self.mut_ops += 1
         self.check_log(start, groups, ('C07',), 'add_processor')
 
+    def op_side_add(self, op, start):
+        """The same processor instance is also registered in a second world
+        with another explicit priority (its priority attribute changes
+        while it sits in this world's sorted list)."""
+        _, pi, prio = op
+        if self.depth:
+            return 'skip'
+        if self.w2 is None:
+            self.w2 = self.desper.World()
+            self.side = {}
+        p = self.actors.pinst(pi)
+        pc = self.cfg['pinsts'][pi]
+        self.call(lambda: self.w2.add_processor(p, prio), owner=('C07',),
+                  what=f'other_world.add_processor(p{pi}, {prio})')
+        groups = []
+        old = self.side.get(pc)
+        if old is not None:
+            groups.append((self.exp_plife(old, 'on_remove'), True))
+        self.side[pc] = pi
+        groups.append((self.exp_plife(pi, 'on_add'), True))
+        groups = [g for g in groups if g[0]]
+        self.inst_prio[pi] = prio
+        if any(j == pi for q, j in self.procs):
+            self.probes['priority_changed_while_registered'] += 1
+            # the list of this world is no longer sorted by the priorities
+            # it was built with: only membership is judged from now on
+            self.order_unsure = True
+        self.check_log(start, groups, ('C07',), 'add_processor (other world)')
+
     def pmatches(self, pc):
         T = self.actors.RunProc if pc == -1 else self.actors.pclasses[pc]
         return [j for q, j in self.procs
@@ -907,6 +937,17 @@ class Interp:
             self.probes['frame_failed_by_processor'] += 1
         elif getattr(self, 'failed_frames', 0):
             self.probes['frames_after_failure'] += 1
+        if getattr(self, 'order_unsure', False):
+            if boom is None:
+                got, want = sorted(got), sorted(want)
+            else:
+                # aborted frame of a list with unknown order: any subset,
+                # each processor at most once
+                full = [('proc', f'p{j}', repr(dt), True)
+                        for j in expected_procs]
+                if not (Counter(got) - Counter(full)) and len(
+                        set(got)) == len(got):
+                    got = want = []
         if got != want:
             labs_w = [x[1] for x in want]
             labs_g = [x[1] for x in got]
@@ -987,8 +1028,12 @@ class Interp:
         was_enabled = self.enabled
         if was_enabled:
             self.emit(groups, exp)
-            for e in pexp:
-                groups.append(([e], True))
+            if getattr(self, 'order_unsure', False):
+                if pexp:
+                    groups.append((pexp, False))
+            else:
+                for e in pexp:
+                    groups.append(([e], True))
         else:
             self.probes['clear_while_disabled'] += 1
             lost += len(exp) + len(pexp)
@@ -1067,8 +1112,14 @@ class Interp:
                         want[(repr(eid), f'c{i}')] += 1
                     if c in multi.get(ci, ()):
                         self.probes['diamond_query'] += 1
+            lst = w.get(T)
             got = Counter((repr(e), getattr(c, '_label', '?'))
-                          for e, c in w.get(T))
+                          for e, c in lst)
+            # the returned list is the caller's: using it as a work list
+            # must not change what a later query reports
+            if isinstance(lst, list):
+                lst.clear()
+                lst.append(('poison', None))
             if got != want:
                 if set(got) == set(want):
                     self.fail(('C01', 'C06'), 'duplicate_match',
@@ -1135,6 +1186,8 @@ class Interp:
         # processors
         got = [getattr(p, '_label', '?') for p in w.processors]
         want = [f'p{j}' for q, j in self.procs]
+        if getattr(self, 'order_unsure', False):
+            got, want = sorted(got), sorted(want)
         if got != want:
             self.fail('C07', 'processors_property',
                       f'processors = {got}, expected {want} (priorities '
@@ -1292,7 +1345,7 @@ WEIGHTS = {
     'C07': dict(create=1, create_id=.2, add=.6, add_replace=.2, remove=.4,
                 delete=.3, delete_now=.2, touch=.1, process=3.5, clear=.4,
                 disable=.6, enable=.9, probe=.6, add_proc=5, remove_proc=1.6,
-                defclass=0),
+                defclass=0, side_add=.5),
 }
 
 
@@ -1548,6 +1601,9 @@ def gen_op(kind, sh, rng, cfg, state):
         if prio is not None and rng.random() < .08:
             prio = rng.choice([100, -50, 2 ** 40, -3, 7])
         return ['add_proc', pi, prio]
+    if kind == 'side_add':
+        return ['side_add', rng.randrange(len(cfg['pinsts'])),
+                rng.choice([-3, -1, 0, 1, 2, 3, 5, 9])]
     if kind == 'remove_proc':
         return ['remove_proc', rng.choice([-1] + list(
             range(len(cfg['pclasses']))))]
@@ -1741,5 +1797,6 @@ PROBES = {
             'remove_proc_by_base_type'],
     'C07': ['tie_order_checked', 'explicit_zero_over_nonzero_default',
             'insert_middle', 'replace_then_frame', 'remove_proc_by_base_type',
-            'readd_same_instance', 'explicit_negative'],
+            'readd_same_instance', 'explicit_negative',
+            'priority_changed_while_registered'],
 }
